@@ -1,6 +1,6 @@
 (* C07 -- Concurrent partition tasks cannot interfere with one another. *)
 From Coq Require Import ZArith List Bool.
-From B2Z Require Import Model.Footprint Proofs.FootprintProofs.
+From B2Z Require Import Model.Footprint Proofs.FootprintProofs Base.Eff Gen.GenIcfProtocol Gen.GenVczProtocol Bridge.BridgeFootprint Base.PlinkOps Gen.GenPlink Bridge.BridgePlink.
 Import ListNotations.
 
 (* For ANY path, value and operation types with honest footprints (an operation changes only
@@ -42,6 +42,49 @@ Theorem phase_inputs_not_written : forall t u p, reads t p = true ->
   match t, u with Explode _, Explode _ | Encode _, Encode _ | PlinkSlice _ _ _, PlinkSlice _ _ _ => writes u p = false | _, _ => True end.
 Proof. exact phase_inputs_not_written_lemma. Qed.
 Print Assumptions phase_inputs_not_written.
+
+(* TRANSLATOR TIE.  The effect lists of the two partition commands as regenerated from the source on
+   this run (explode_partition / encode_partition; translator/proto2coq.py) stay inside the footprints
+   the theorems above are about: every effect has a footprint reading, everything it mutates lies in
+   the task's write set and everything it inspects in the task's touch set, for EVERY partition j. *)
+Theorem translated_explode_within_footprint : forall j, Forall (eff_within PExplode j) icf_partition.
+Proof. exact translated_explode_within_footprint_lemma. Qed.
+Print Assumptions translated_explode_within_footprint.
+
+Theorem translated_encode_within_footprint : forall j, Forall (eff_within PEncode j) vcz_partition.
+Proof. exact translated_encode_within_footprint_lemma. Qed.
+Print Assumptions translated_encode_within_footprint.
+
+(* hence: no effect of the translated command of partition i mutates a path that any effect of the
+   translated command of another partition j mutates or inspects *)
+Theorem translated_explode_commands_disjoint : forall i j, i <> j -> forall e f, In e icf_partition -> In f icf_partition ->
+  forall wi ri wj rj, eff_footprint PExplode i e = Some (wi, ri) -> eff_footprint PExplode j f = Some (wj, rj) ->
+  forall c d p, In c wi -> In d (wj ++ rj) -> in_class c p = true -> in_class d p = true -> False.
+Proof. exact (translated_commands_disjoint_lemma PExplode icf_partition translated_explode_within_footprint_lemma explode_footprints_disjoint_lemma). Qed.
+Print Assumptions translated_explode_commands_disjoint.
+
+Theorem translated_encode_commands_disjoint : forall i j, i <> j -> forall e f, In e vcz_partition -> In f vcz_partition ->
+  forall wi ri wj rj, eff_footprint PEncode i e = Some (wi, ri) -> eff_footprint PEncode j f = Some (wj, rj) ->
+  forall c d p, In c wi -> In d (wj ++ rj) -> in_class c p = true -> in_class d p = true -> False.
+Proof. exact (translated_commands_disjoint_lemma PEncode vcz_partition translated_encode_within_footprint_lemma encode_footprints_disjoint_lemma). Qed.
+Print Assumptions translated_encode_commands_disjoint.
+
+(* the PLINK worker task as translated from plink.encode_genotypes_slice (translator/plink2coq.py): every
+   row its read loop delivers -- hence every row it writes through buffers created at `start` -- lies in
+   a chunk of the task's write footprint, for every array, slice and chunk size *)
+Theorem translated_slice_within_footprint : forall start stop cs arr i, 1 <= cs -> 0 <= start -> start mod cs = 0 -> start <= stop ->
+  In i (concat (map (fun p => zrange (fst p) (snd p)) (gen_slice_reads (Z.to_nat (stop - start)) start stop cs))) ->
+  writes (PlinkSlice start stop cs) (PlinkChunk arr (i / cs)) = true.
+Proof. exact translated_slice_within_footprint_lemma. Qed.
+Print Assumptions translated_slice_within_footprint.
+
+(* sensitivity: a partition command that rewrote the shared plan, or used a loop symbol, would NOT be
+   inside the footprint (so the two theorems above are not vacuous about what they exclude) *)
+Example shared_write_is_outside : ~ eff_within PExplode 3 (WriteFile IWipMeta) /\ ~ eff_within PEncode 3 (Rmtree ZParts).
+Proof.
+  split; intros [w [r [E [Hw _]]]]; simpl in E; inversion E; subst.
+  specialize (Hw (Exactly IcfWipMeta) IcfWipMeta (or_introl eq_refl) eq_refl). discriminate.
+Qed.
 
 Example c07_instance :
   writes (Explode 3) (IcfFieldPart 7 3) = true /\ touches (Explode 4) (IcfFieldPart 7 3) = false /\
